@@ -897,6 +897,9 @@ package scipipe
 //@ func (*Process).SetOut$1(t) (res)
 //@   props C15
 //@   atcall strings.Replace every-occurrence-replaced[C15]: $arg3 < 0 && $arg1 == match[0] && $arg2 == replacement
+// Known finding F11 (the SetOut twin of F5): every round replaces in the evolving path, so placeholder-like text inside
+// an inserted value is replaced again by a later round.
+//@   atcall strings.Replace inserted-text-is-not-expanded-again[C15]: !matches(replacement, "{(o|os|i|is|p|t):([^{}]+)}")
 //@   atcall strings.Replace parsed-as-name-bar-modifiers[C15]: phType == match[1] && portName == splitOf(match[2], "|")[0] && len(restParts) == len(splitOf(match[2], "|")) - 1 && (forall k int :: 0 <= k && k < len(restParts) ==> restParts[k] == splitOf(match[2], "|")[k + 1])
 //@   atcall strings.Replace known-type[C15]: phType == "i" || phType == "o" || phType == "p" || phType == "t"
 //@   atcall strings.Replace case-i[C15]: phType == "i" ==> t.InIPs[portName] != nil && replacement == ite(len(restParts) > 0, applyMods(t.InIPs[portName].path, restParts), t.InIPs[portName].path)
